@@ -31,6 +31,10 @@ impl VarRef {
 pub enum Const {
     /// a number literal already in canonical form (e.g. 0.125, 1000000)
     Canonical(&'static str),
+    /// (source spelling, canonical text) of a number whose canonical text
+    /// differs from its spelling (negative zero, more digits than a double
+    /// holds, leading zeros, trailing ".0")
+    Spelled(&'static str, &'static str),
     Int(i64),
     Half(i64), // n + 0.5
     True,
@@ -406,6 +410,7 @@ impl<'a> Model<'a> {
                 Op::SayConst(c) => {
                     let t = match c {
                         Const::Canonical(s) => s.to_string(),
+                        Const::Spelled(_, canonical) => canonical.to_string(),
                         Const::Int(n) => n.to_string(),
                         Const::Half(n) => {
                             if *n < 0 {
